@@ -1,38 +1,43 @@
 package rules
 
 func init() {
+	property(&Property{ID: "C09",
+		Rules:       []string{"S1", "S2", "S3"},
+		Explanation: "tbd",
+		Assumptions: []string{"tbd"},
+	})
 	property(&Property{ID: "C08",
-		Rules: []string{"O5.clone", "O1.update", "O2.trim", "O1.history"},
+		Rules:       []string{"O5.clone", "O1.update", "O2.trim", "O1.history"},
 		Explanation: "tbd",
 		Assumptions: []string{"tbd"},
 	})
 	property(&Property{ID: "C01",
-		Rules: []string{"K.compare", "O2.lww", "O2.rga", "A1", "K.id"},
+		Rules:       []string{"K.compare", "O2.lww", "O2.rga", "A1", "K.id"},
 		Explanation: "tbd",
 		Assumptions: []string{"tbd"},
 	})
 	property(&Property{ID: "C03",
-		Rules: []string{"O2.purge", "VV.server", "K.vv", "O2.cache"},
+		Rules:       []string{"O2.purge", "VV.server", "K.vv", "O2.cache"},
 		Explanation: "tbd",
 		Assumptions: []string{"tbd"},
 	})
 	property(&Property{ID: "C06",
-		Rules: []string{"K.id", "A1", "K.vv", "K.compare"},
+		Rules:       []string{"K.id", "A1", "K.vv", "K.compare"},
 		Explanation: "tbd",
 		Assumptions: []string{"tbd"},
 	})
 	property(&Property{ID: "C11",
-		Rules: []string{"O2.state", "O3.attach", "O2.removed", "O1.deactivate"},
+		Rules:       []string{"O2.state", "O3.attach", "O2.removed", "O1.deactivate"},
 		Explanation: "tbd",
 		Assumptions: []string{"tbd"},
 	})
 	property(&Property{ID: "C04",
-		Rules: []string{"A4.log", "L4a", "L4b", "O2.dedup", "O2.own", "PULL.range", "O1.pipeline", "L3", "L8", "DB.append"},
+		Rules:       []string{"A4.log", "L4a", "L4b", "O2.dedup", "O2.own", "PULL.range", "O1.pipeline", "L3", "L8", "DB.append"},
 		Explanation: "tbd",
 		Assumptions: []string{"tbd"},
 	})
 	property(&Property{ID: "C16",
-		Rules: []string{"L1", "L2", "L3"},
+		Rules:       []string{"L1", "L2", "L3"},
 		Explanation: "tbd",
 		Assumptions: []string{"tbd"},
 	})
